@@ -60,6 +60,10 @@ def cases(tier, seed):
                     for spin_ratio in ([0.37, 2.63, -1.21] if tier == 'thorough' else [0.37, -1.21]):
                         out.append(dict(kind='quick', lmax=lmax, mu=mu * f, R=R, rho=rho * f, g=g, rheo=rh,
                                         eta=1e19, n=2.3e-5, spin_ratio=spin_ratio))
+            # array-valued material inputs (shear modulus and viscosity arrays): element-wise equal to the scalar closed form
+            (R, rho, g), mu = bodies[1], mus[1]
+            out.append(dict(kind='quick', lmax=lmax, mu=mu * f, R=R, rho=rho * f, g=g, rheo=rh, eta=1e19, n=2.3e-5,
+                            spin_ratio=0.37, arrays=True))
     return out
 
 
@@ -92,7 +96,10 @@ def run_case(c):
         ref_m = m_l(l, mu, rho, g, R)
         try:
             er_g = calc_effective_rigidity_general(mu, g, R, rho, order_l=l)
-            er_ga = calc_effective_rigidity_general(np.array([mu, 2 * mu]), g, R, rho, order_l=l)
+            mu_arr = np.array([mu, 2 * mu])
+            er_ga = calc_effective_rigidity_general(mu_arr, g, R, rho, order_l=l)
+            if mu_arr[0] != mu or mu_arr[1] != 2 * mu:
+                viol.append(('C12/effective_rigidity_general/overwrites-array-argument', dict(l=l, after=mu_arr, before=[mu, 2 * mu])))
             if bad(er_g, ref_m):
                 viol.append(('C12/effective_rigidity_general/closed-form', dict(l=l, got=er_g, want=ref_m,
                              buggy_form=(2 * l * l + 4 * l + 3 / l) * mu / (g * R * rho))))
@@ -109,7 +116,10 @@ def run_case(c):
             want = k_closed(l, mu, rho, g, R, J)
             if bad(kg, want):
                 viol.append(('C12/complex_love_general/closed-form', dict(l=l, got=kg, want=want)))
-            kga = calc_complex_love_general(np.array([J, J]), np.array([mu, mu]), ref_m, order_l=l)
+            J_arr, mu_arr2 = np.array([J, J]), np.array([mu, mu])
+            kga = calc_complex_love_general(J_arr, mu_arr2, ref_m, order_l=l)
+            if J_arr[0] != J or mu_arr2[1] != mu:
+                viol.append(('C12/complex_love_general/overwrites-array-argument', dict(l=l)))
             if bad(kga[1], kg, 1e-15):
                 viol.append(('C12/complex_love_general/array-vs-scalar', dict(l=l, got=kga, want=kg)))
             sg = calc_static_love_general(ref_m, order_l=l)
@@ -137,6 +147,8 @@ def run_case(c):
     lmax, n = c['lmax'], c['n']
     s = c['spin_ratio'] * n
     M = 4.0 / 3.0 * math.pi * R ** 3 * rho
+    if c.get('arrays'):
+        return _run_quick_arrays(c, R, rho, g, mu, M, n, s, bad)
     try:
         res = quick_tidal_dissipation(1.0e27, R, M, g, rho, 0.4 * M * R * R, viscosity=c['eta'], shear_modulus=mu,
                                       rheology=c['rheo'], complex_compliance_inputs=RHEOS[c['rheo']],
@@ -162,6 +174,43 @@ def run_case(c):
         viol.append((f'C12/quick/exception/{type(e).__name__}', dict(msg=str(e)[:200])))
         obs = None
     return dict(status='pass', viol=viol, obs=(obs, c['rheo'], lmax, c['spin_ratio']))
+
+
+def _run_quick_arrays(c, R, rho, g, mu, M, n, s, bad):
+    import numpy as np
+    from TidalPy.toolbox.quick_tides import quick_tidal_dissipation
+    from TidalPy.tides.modes.mode_manipulation import find_mode_manipulators
+    viol, lmax = [], c['lmax']
+    mus = np.array([mu, 2.0 * mu, 0.5 * mu])
+    etas = np.array([c['eta'], 10.0 * c['eta'], 0.1 * c['eta']])
+    mus0, etas0 = mus.copy(), etas.copy()
+    obs = None
+    try:
+        res = quick_tidal_dissipation(1.0e27, R, M, g, rho, 0.4 * M * R * R, viscosity=etas, shear_modulus=mus,
+                                      rheology=c['rheo'], complex_compliance_inputs=RHEOS[c['rheo']],
+                                      eccentricity=0.0, obliquity=None, orbital_frequency=n, spin_frequency=s,
+                                      max_tidal_order_l=lmax, eccentricity_truncation_lvl=2)
+        if not (np.array_equal(mus, mus0) and np.array_equal(etas, etas0)):
+            viol.append(('C12/quick_tidal_dissipation/overwrites-array-argument', dict(mu_after=mus, mu_before=mus0)))
+        loves = res['love_number_by_orderl']
+        calc_terms, _, efunc, ifunc = find_mode_manipulators(max_order_l=lmax, eccentricity_truncation_lvl=2, use_obliquity=False)
+        uf, terms = calc_terms(s, n, float(np.asarray(res['semi_major_axis']).ravel()[0]), R, efunc(0.0), ifunc(0.0), multiply_modes_by_sign=True)
+        obs = []
+        for l in range(2, lmax + 1):
+            ws = [float(uf[sig]) for sig in uf if l in terms[sig]]
+            got = np.asarray(loves[l])
+            if got.shape != (3,):
+                viol.append(('C12/quick_tidal_dissipation/array-shape', dict(l=l, shape=got.shape)))
+                break
+            for i in range(3):
+                want = sum(k_closed(l, float(mus0[i]), rho, g, R, _compliance(c['rheo'], w, float(mus0[i]), float(etas0[i]))) for w in ws) / len(ws)
+                if bad(got[i], want, 1e-11):
+                    viol.append(('C12/quick_tidal_dissipation/love_number_by_orderl/array-inputs', dict(l=l, element=i, got=got[i], want=want)))
+                    break
+            obs.append(round(float(abs(got[0])), 9))
+    except Exception as e:
+        viol.append((f'C12/quick-arrays/exception/{type(e).__name__}', dict(msg=str(e)[:200])))
+    return dict(status='pass', viol=viol, obs=('arrays', obs, c['rheo'], lmax))
 
 
 def replay(case):
